@@ -51,6 +51,8 @@ class Mirror:
             if not v.is_Rational:
                 raise ValueError("non-rational HP amount")
             return f"{int(v.p)}/{int(v.q)}"
+        if isinstance(v, (str, bytes)) or v is None:
+            return f"NOT-A-NUMBER:{type(v).__name__}"        # a stored amount must be a number, not its text
         return str(fbits(v))
 
     def enc_contents(self, items):
